@@ -347,8 +347,10 @@ class Field(WeightedGraph):
 
         # write all the depth values
         label[self.field[:, refdim] >= th] = llabel
-        idx = np.array([ma.array(
-                    self.field[:, refdim], mask=(label != c)).argmax()
+        # masked argmax on float64, so that masked entries can never tie with
+        # a basin maximum (ma fills them with the dtype minimum)
+        values = self.field[:, refdim].astype(np.float64)
+        idx = np.array([ma.array(values, mask=(label != c)).argmax()
                         for c in range(n_bassins)])
         return idx, label
 
@@ -388,7 +390,8 @@ class Field(WeightedGraph):
 
         # create a subfield(thresholding)
         sf = self.subfield(self.field[:, refdim] >= th)
-        initial_field = sf.field[:, refdim].copy()
+        # never negate the caller's dtype (unsigned wraps, bool raises)
+        initial_field = sf.field[:, refdim].astype(np.float64)
         sf.field = initial_field.copy()
 
         # explore the subfield
@@ -423,8 +426,8 @@ class Field(WeightedGraph):
 
         # write all the depth values
         label[self.field[:, refdim] >= th] = llabel
-        idx = np.array([ma.array(
-                    self.field[:, refdim], mask=(label != c)).argmax()
+        values = self.field[:, refdim].astype(np.float64)
+        idx = np.array([ma.array(values, mask=(label != c)).argmax()
                          for c in range(q)])
         return idx, parent, label
 
